@@ -15,6 +15,12 @@
 (* Fix: "report"   - F reports a failed handshake: stores the exception and sets the      *)
 (*                   event; _start re-raises it (proposed_fixes/C20_*.diff)               *)
 (*      "srvclose" - the server closes the client socket when the context id is unknown   *)
+(*      "sentinelraise" - ProcessWorker._start raises when the child's sentinel fires      *)
+(*                   before the runtime info (proposed_fixes/C20_process_start_raises...);  *)
+(*                   without it _start returns normally, Worker.__init__ REGISTERS the      *)
+(*                   half-built worker in Worker._active_children, and only the `assert     *)
+(*                   not self.is_child` of ProcessWorker.__init__ makes the constructor     *)
+(*                   raise - the registry then holds an object whose is_alive() raises      *)
 (* The data connection is a resource of its own (dsock): _start closes it on every failure *)
 (* exit.  A persistent backend sits in recv_msg on it and exits iff the client's end is    *)
 (* closed; a one-shot backend ends with its (short) target.  LeakData = TRUE is the        *)
@@ -31,6 +37,7 @@ CONSTANTS Fix, Scenarios, LateClose, LeakData
 
 VARIABLES scn,      \* [kind, step, how, pers ("F" one-shot | "T" persistent | "L" one-shot, never-ending target)]
           dsock,    \* the client's data socket: "none" "open" "closed"
+          regd,     \* the worker object has been put into Worker._active_children
           ppc,      \* constructor: "connect" "startF" "wait" | "spawn" "waitc" | "returned" "raised"
           fpc,      \* frontend thread: "idle" "hdr" "self" "addr" "conn" "info" "set" "fetch" "dead"
           evt, err, \* _startup_sync; handshake error recorded (only with "report")
@@ -47,7 +54,7 @@ VARIABLES scn,      \* [kind, step, how, pers ("F" one-shot | "T" persistent | "
           bkp,      \* the backend still holds ITS OWN copy of the server's end of the start-up pipe
           go,       \* the server has sent the go-ahead
           ch        \* process kind: the child: "none" "starting" "reported" "exited"
-vars == <<scn, dsock, ppc, fpc, evt, err, sv, sent, dconn, addr, ctrl, info, gotInfo, bk, bkp, go, ch>>
+vars == <<scn, regd, dsock, ppc, fpc, evt, err, sv, sent, dconn, addr, ctrl, info, gotInfo, bk, bkp, go, ch>>
 
 St  == scn.step        \* "healthy" "refuse_data" "unknown_ctx" "hdr" "self" "addr0" "addrM" "addrL" "conn" "info0" "infoM" "infoL"
                        \* "kill_hdr" "kill_self" "kill_addr" "kill_spawn" "kill_window" | process kind: "healthy" "exit_early"
@@ -59,21 +66,23 @@ IsRInfo == St \in {"rinfo0", "rinfoM", "rinfoL"}       \* real server; the runti
 
 Init == /\ scn \in Scenarios
         /\ ppc = IF scn.kind = "remote" THEN "connect" ELSE "spawn"
-        /\ dsock = "none"
+        /\ dsock = "none" /\ regd = FALSE
         /\ fpc = "idle" /\ evt = FALSE /\ err = FALSE /\ sv = "listen" /\ sent = 0 /\ dconn = "open"
         /\ addr = "none" /\ ctrl = "none" /\ info = "none" /\ gotInfo = FALSE /\ bk = "none" /\ bkp = FALSE /\ go = FALSE /\ ch = "none"
 
 (* ---- the constructor ---- *)
 PStep ==
   /\ CASE ppc = "connect" -> /\ ppc' = (IF St = "refuse_data" THEN "raised" ELSE "startF")                  \* connect() raises
-                             /\ dsock' = (IF St = "refuse_data" THEN "closed" ELSE "open") /\ UNCHANGED fpc
-       [] ppc = "startF" -> ppc' = "wait" /\ fpc' = "hdr" /\ UNCHANGED dsock
+                             /\ dsock' = (IF St = "refuse_data" THEN "closed" ELSE "open") /\ UNCHANGED <<fpc, regd>>
+       [] ppc = "startF" -> ppc' = "wait" /\ fpc' = "hdr" /\ UNCHANGED <<dsock, regd>>
        [] ppc = "wait" -> /\ evt                         \* _startup_sync.wait(): no timeout
                           /\ ppc' = (IF err THEN "raised" ELSE "returned") /\ UNCHANGED fpc
                           /\ dsock' = (IF err /\ ~LeakData THEN "closed" ELSE dsock)     \* remote.py: `self._socket.close()` before re-raising
-       [] ppc = "spawn" -> ppc' = "waitc" /\ UNCHANGED <<fpc, dsock>>
+                          /\ regd' = ~err
+       [] ppc = "spawn" -> ppc' = "waitc" /\ UNCHANGED <<fpc, dsock, regd>>
        [] ppc = "waitc" -> /\ ch \in {"reported", "exited"}          \* connection.wait([comms, sentinel])
                            /\ ppc' = (IF ch = "reported" THEN "returned" ELSE "raised")   \* sentinel path: `assert not self.is_child` fails
+                           /\ regd' = (ch = "reported" \/ "sentinelraise" \notin Fix)     \* worker.py: register_child after _start returned
                            /\ UNCHANGED <<fpc, dsock>>
        [] OTHER -> FALSE
   /\ ch' = IF ppc = "spawn" THEN "starting" ELSE ch
@@ -95,7 +104,7 @@ FStep ==
        [] fpc = "info" -> \/ /\ info = "full" /\ gotInfo' = TRUE /\ fpc' = "set" /\ UNCHANGED <<err, evt, sent, ctrl>>
                           \/ /\ info # "full" /\ ctrl \in Ends /\ Fail /\ UNCHANGED <<sent, ctrl, gotInfo>>
        [] fpc = "set" -> evt' = TRUE /\ fpc' = "fetch" /\ UNCHANGED <<err, sent, ctrl, gotInfo>>
-  /\ UNCHANGED <<scn, dsock, ppc, sv, dconn, addr, info, bk, bkp, go, ch>>
+  /\ UNCHANGED <<scn, regd, dsock, ppc, sv, dconn, addr, info, bk, bkp, go, ch>>
 
 (* ---- the server (environment) ---- *)
 Gone(how) == sv' = "gone" /\ dconn' = how
@@ -133,7 +142,7 @@ SStep ==
             \* runtime info received on the start-up pipe: forward it on the control socket, send the go-ahead
             info' = "full" /\ go' = TRUE /\ sv' = "sentInfo" /\ UNCHANGED <<dconn, addr, ctrl, bk, bkp>>
        [] OTHER -> FALSE
-  /\ UNCHANGED <<scn, dsock, ppc, fpc, evt, err, sent, gotInfo, ch>>
+  /\ UNCHANGED <<scn, regd, dsock, ppc, fpc, evt, err, sent, gotInfo, ch>>
 
 (* ---- the backend process (remote.py: _run_backend up to the go-ahead) ---- *)
 \* EOF / EPIPE on the start-up pipe needs EVERY copy of the server's end to be closed: the server's (it is dead) and the
@@ -150,17 +159,17 @@ BStep ==
             \* one-shot ("F"): the (short) target ends; persistent ("T"): recv_msg on the data connection sees the client's
             \* close; one-shot with a target that does not end by itself ("L"): stays (known finding, see ClientStartMC)
        [] OTHER -> FALSE
-  /\ UNCHANGED <<scn, dsock, ppc, fpc, evt, err, sv, sent, dconn, addr, ctrl, info, gotInfo, ch>>
+  /\ UNCHANGED <<scn, regd, dsock, ppc, fpc, evt, err, sv, sent, dconn, addr, ctrl, info, gotInfo, ch>>
 \* the last holder of the data and control sockets is gone: the client sees the end of both connections
 SockEOF ==
   /\ St = "kill_window" /\ SrvDead /\ bk = "gone" /\ ctrl = "open"
   /\ \E h \in Hows : ctrl' = h /\ dconn' = h
-  /\ UNCHANGED <<scn, dsock, ppc, fpc, evt, err, sv, sent, addr, info, gotInfo, bk, bkp, go, ch>>
+  /\ UNCHANGED <<scn, regd, dsock, ppc, fpc, evt, err, sv, sent, addr, info, gotInfo, bk, bkp, go, ch>>
 
 (* ---- the child process (process kind) ---- *)
 CStep == /\ scn.kind = "process" /\ ch = "starting"
          /\ ch' = IF St = "exit_early" THEN "exited" ELSE "reported"
-         /\ UNCHANGED <<scn, dsock, ppc, fpc, evt, err, sv, sent, dconn, addr, ctrl, info, gotInfo, bk, bkp, go>>
+         /\ UNCHANGED <<scn, regd, dsock, ppc, fpc, evt, err, sv, sent, dconn, addr, ctrl, info, gotInfo, bk, bkp, go>>
 
 Next == PStep \/ FStep \/ SStep \/ BStep \/ SockEOF \/ CStep
 Spec == Init /\ [][Next]_vars /\ WF_vars(PStep) /\ WF_vars(FStep) /\ WF_vars(SStep) /\ WF_vars(BStep) /\ WF_vars(SockEOF) /\ WF_vars(CStep)
@@ -171,11 +180,13 @@ Settled == ~((SrvDead \/ IsRInfo) /\ ENABLED BStep)
 Rec == [scn |-> scn,
         obs |-> [outcome |-> IF Done THEN ppc ELSE "hung",
                  id_ok |-> IF ppc # "returned" THEN "na" ELSE IF (scn.kind = "remote" /\ gotInfo) \/ (scn.kind = "process" /\ ch = "reported") THEN "T" ELSE "F",
+                 registry |-> IF ppc = "raised" /\ regd THEN "broken" ELSE "ok",
                  leftover |-> IF (scn.kind = "process" /\ ch \in {"starting", "reported"}) \/ (scn.kind = "remote" /\ Orphaned) THEN 1 ELSE 0]]
 
 Live_Returns   == <>Done
 Inv_Usable     == Done => C20_Usable(Rec)
 Inv_NoLeftover == (Done /\ Settled) => C20_NoLeftover(Rec)
+Inv_NotRegistered == Done => C20_NotRegistered(Rec)
 Inv_DataClosed == (scn.kind = "remote" /\ ppc = "raised") => dsock = "closed"        \* every failure exit closes the data socket
 TypeOK == /\ sent \in 0..2 /\ dconn \in {"open", "fin", "rst"} /\ addr \in {"none", "part", "full"} /\ info \in {"none", "part", "full"}
           /\ (evt /\ ~err) => gotInfo
